@@ -2,6 +2,8 @@ import Aergo.Model.DriverLib
 import Aergo.Model.Enc
 import Aergo.Model.Merkle
 import Aergo.Model.Receipt
+import Aergo.Model.ChainId
+import Aergo.Model.Hardfork
 
 /-! Model driver for C19: `model-c19 < ops > out`. One answer line per operation line. -/
 open Aergo Aergo.DriverLib Aergo.Enc
@@ -68,7 +70,7 @@ byte strings in hex (`-` = empty), `status` = hex of the status string. -/
 def strOfBytes (b : List UInt8) : String :=
   match String.fromUTF8? (ByteArray.mk b.toArray) with
   | some s => s
-  | none => "�"        -- not one of the four status strings either way
+  | none => "?not-utf8"   -- not one of the four status strings either way
 
 def parseEvents : Nat → List String → Option (List Receipt.Event × List String)
   | 0, ws => some ([], ws)
@@ -154,6 +156,84 @@ def receiptOp (op : String) (ws : List String) : String :=
     | _, _ => "bad-op"
   | _, _ => "bad-op"
 
+def parseBool : String → Option Bool
+  | "true" => some true
+  | "false" => some false
+  | _ => none
+
+def chainIdOp (ws : List String) : String :=
+  match ws with
+  | ["cidb", v, p, m, mg, cs] =>
+    match v.toInt?, parseBool p, parseBool m, unhex mg, unhex cs with
+    | some v, some p, some m, some mg, some cs =>
+      hex (ChainId.bytes { version := v, publicNet := p, mainNet := m, magic := mg, consensus := cs })
+    | _, _, _, _, _ => "bad-op"
+  | ["cidr", d] =>
+    match unhex d with
+    | some d =>
+      match ChainId.read d with
+      | some c => s!"{c.version} {c.publicNet} {c.mainNet} {hex c.magic} {hex c.consensus}"
+      | none => "err"
+    | none => "bad-op"
+  | ["cidv", d] =>
+    match unhex d with
+    | some d => toString (ChainId.decodeVersion d)
+    | none => "bad-op"
+  | ["mkcid", d, v] =>
+    match unhex d, v.toInt? with
+    | some d, some v => match ChainId.makeChainId d v with | some b => hex b | none => "panic"
+    | _, _ => "bad-op"
+  | ["cideq", a, b] =>
+    match unhex a, unhex b with
+    | some a, some b => toString (ChainId.eqWithoutVersion a b)
+    | _, _ => "bad-op"
+  | _ => "bad-op"
+
+def parseNats (ws : List String) : Option (List Nat) := ws.mapM (·.toNat?)
+
+def pairs : List Nat → List (Nat × Nat)
+  | k :: v :: rest => (k, v) :: pairs rest
+  | _ => []
+
+/-- insertion sort of db entries by key (Go map: printed in key order) -/
+def insertKV (kv : Nat × Nat) : List (Nat × Nat) → List (Nat × Nat)
+  | [] => [kv]
+  | x :: rest => if kv.1 ≤ x.1 then kv :: x :: rest else x :: insertKV kv rest
+
+def hardforkOp (ws : List String) : String :=
+  match ws with
+  | "ver" :: h :: n :: rest =>
+    match h.toNat?, n.toNat?, parseNats rest with
+    | some h, some n, some c => if c.length = n then toString (Hardfork.version c h) else "bad-op"
+    | _, _, _ => "bad-op"
+  | "compat" :: h :: n :: rest =>
+    match h.toNat?, n.toNat?, parseNats rest with
+    | some h, some n, some xs =>
+      match xs.drop n with
+      | bad :: m :: kvs =>
+        if xs.length = n + 2 + 2 * m then
+          match Hardfork.checkCompatibility (xs.take n) { entries := pairs kvs, badKeys := bad } h with
+          | .ok => "ok"
+          | .invalid => "invalid"
+          | .fork k => s!"fork:V{k}"
+          | .older => "older"
+        else "bad-op"
+      | _ => "bad-op"
+    | _, _, _ => "bad-op"
+  | "fix" :: n :: rest =>
+    match n.toNat?, parseNats rest with
+    | some n, some xs =>
+      match xs.drop n with
+      | m :: kvs =>
+        if xs.length = n + 1 + 2 * m then
+          let d := Hardfork.fixDbConfig { entries := pairs kvs, badKeys := 0 } (xs.take n)
+          let sorted := d.entries.foldl (fun acc kv => insertKV kv acc) []
+          " ".intercalate (sorted.map fun kv => s!"V{kv.1}={kv.2}")
+        else "bad-op"
+      | _ => "bad-op"
+    | _, _ => "bad-op"
+  | _ => "bad-op"
+
 def step (line : String) : String :=
   match words line with
   | "enc" :: sp :: assigns =>
@@ -170,6 +250,14 @@ def step (line : String) : String :=
   | "rus" :: ws => receiptOp "rus" ws
   | "rsm" :: ws => receiptOp "rsm" ws
   | "rsu" :: ws => receiptOp "rsu" ws
+  | "cidb" :: ws => chainIdOp ("cidb" :: ws)
+  | "cidr" :: ws => chainIdOp ("cidr" :: ws)
+  | "cidv" :: ws => chainIdOp ("cidv" :: ws)
+  | "mkcid" :: ws => chainIdOp ("mkcid" :: ws)
+  | "cideq" :: ws => chainIdOp ("cideq" :: ws)
+  | "ver" :: ws => hardforkOp ("ver" :: ws)
+  | "compat" :: ws => hardforkOp ("compat" :: ws)
+  | "fix" :: ws => hardforkOp ("fix" :: ws)
   | _ => "bad-op"
 
 end C19Drv
